@@ -23,7 +23,7 @@ import (
 type table map[string]map[string]uint8 // user -> scope -> perm
 
 type replay struct {
-	Kind     string `json:"kind"` // allow | perm | parse
+	Kind     string `json:"kind"` // allow | history | perm | parse
 	Via      string `json:"via,omitempty"`
 	Super    string `json:"super,omitempty"`
 	Table    table  `json:"table,omitempty"`
@@ -32,6 +32,7 @@ type replay struct {
 	Required uint8  `json:"required,omitempty"`
 	Perm     uint8  `json:"perm,omitempty"`
 	Text     string `json:"text,omitempty"`
+	History  []table `json:"history,omitempty"` // kind "history": tables installed one after the other on ONE ACL
 }
 
 const (
@@ -253,8 +254,119 @@ func runTable(res *vh.Result, t table, superuser string, mapsize uint64, qs []qu
 	return term, map[string]any{"kind": "allow", "super": superuser, "table": t, "queries": len(qs)}
 }
 
+// installer applies successive tables to ONE real ACL, through YAMLACL.Import or through ACL.setUser.
+type installer struct {
+	via  string
+	acl  *launch.ACL
+	yacl *launch.YAMLACL
+	prev table
+}
+
+func newInstaller(via, superuser string, mapsize uint64) *installer {
+	acl, err := launch.NewACL(mapsize, superuser)
+	if err != nil {
+		panic(err)
+	}
+	return &installer{via: via, acl: acl, yacl: launch.NewYAMLACL(acl), prev: table{}}
+}
+
+// install returns the Coq list of installs performed.
+func (in *installer) install(t table) (string, error) {
+	var coq []string
+	switch in.via {
+	case "yaml":
+		if _, err := in.yacl.Import([]byte(yamlOf(t)), enc); err != nil {
+			return "", err
+		}
+		coq = append(coq, "IImport "+coqTable(t))
+	default:
+		keys := map[string]bool{}
+		for u := range in.prev {
+			keys[u] = true
+		}
+		for u := range t {
+			keys[u] = true
+		}
+		for _, u := range vh.SortedKeys(keys) {
+			m := map[launch.ACLScope]launch.ACLPerm{}
+			var cs []string
+			for _, sc := range vh.SortedKeys(t[u]) {
+				m[launch.ACLScope(sc)] = launch.ACLPerm(t[u][sc])
+				cs = append(cs, fmt.Sprintf("(%s,%d)", qq(sc), t[u][sc]))
+			}
+			if _, _, err := launch.VerifACLSetUser(in.acl, u, m); err != nil {
+				return "", err
+			}
+			coq = append(coq, fmt.Sprintf("ISet %s [%s]", qq(alias(u)), strings.Join(cs, ";")))
+		}
+	}
+	in.prev = t
+	return "[" + strings.Join(coq, ";") + "]", nil
+}
+
+// runHistory installs the tables one after the other on the same ACL (both paths) and, after every install, judges every
+// Allow decision against the LAST installed table (property oracle) and records it for the model.
+func runHistory(res *vh.Result, cases *vh.Cases, superuser string, hist []table, qs []query, grid *gridSpec, nameOf map[string]string, model bool) {
+	var firstCodes [][]int
+	for vi, via := range []string{"yaml", "set"} {
+		in := newInstaller(via, superuser, 7)
+		var steps []string
+		for si, t := range hist {
+			coqInst, err := in.install(t)
+			if err != nil {
+				res.Fail("table-not-installed", fmt.Sprintf("history step %d via %s: %v", si, via, err), replay{Kind: "history", Via: via, Super: superuser, History: hist[:si+1]})
+				break
+			}
+			var codes []string
+			var icodes []int
+			for _, q := range qs {
+				ap, allow := in.acl.Allow(q.u, launch.ACLScope(q.s), launch.ACLPerm(q.r))
+				res.Evaluations++
+				rp := replay{Kind: "history", Via: via, Super: superuser, History: hist[:si+1], User: q.u, Scope: q.s, Required: q.r}
+				d, defined := decidedBy(t, q.u, q.s)
+				if si > 0 && q.u != superuser && q.r >= 2 {
+					if pd, pdef := decidedBy(hist[si-1], q.u, q.s); pd != d || pdef != defined {
+						ntAllow++ // the answer depends on the last install having taken effect
+					}
+				}
+				if q.r >= 2 && q.r <= super {
+					want := q.u == superuser || (defined && d != prohibit && d >= q.r)
+					if allow != want {
+						res.Fail("stale-table-after-install", fmt.Sprintf("after install #%d (via %s) Allow(%s,%s,%d) = (%d,%v); by the last installed table the deciding entry is %d (defined=%v)", si+1, via, nameOf[q.u], q.s, q.r, ap, allow, d, defined), rp)
+					}
+				}
+				codes = append(codes, fmt.Sprint(code(uint8(ap), allow)))
+				icodes = append(icodes, code(uint8(ap), allow))
+			}
+			if vi == 0 {
+				firstCodes = append(firstCodes, icodes)
+			} else if si < len(firstCodes) && fmt.Sprint(firstCodes[si]) != fmt.Sprint(icodes) {
+				res.Fail("yaml-vs-setuser", fmt.Sprintf("after install #%d the answers via yaml and via setUser differ", si+1), replay{Kind: "history", Via: via, Super: superuser, History: hist[:si+1]})
+			}
+			steps = append(steps, fmt.Sprintf("(%s,[%s])", coqInst, strings.Join(codes, ";")))
+		}
+		if model {
+			cases.Add(fmt.Sprintf("(CHist %s %s %s %s [%s])%%Z", qq(alias(superuser)), grid.us, grid.ss, grid.rs, strings.Join(steps, ";")), map[string]any{"kind": "history", "via": via, "super": superuser, "history": hist})
+		}
+	}
+}
+
 func replayOne(rp replay) {
 	switch rp.Kind {
+	case "history":
+		for _, via := range []string{"yaml", "set"} {
+			in := newInstaller(via, rp.Super, 7)
+			for si, t := range rp.History {
+				if _, err := in.install(t); err != nil {
+					fmt.Printf("replay: via %s step %d: %v\n", via, si, err)
+					break
+				}
+			}
+			last := rp.History[len(rp.History)-1]
+			p, ok := in.acl.Allow(rp.User, launch.ACLScope(rp.Scope), launch.ACLPerm(rp.Required))
+			d, def := decidedBy(last, rp.User, rp.Scope)
+			fmt.Printf("replay: via %s: after %d installs Allow(%q,%q,%d) = (%d,%v); deciding entry of the last table = %d (defined=%v)\n", via, len(rp.History), rp.User, rp.Scope, rp.Required, p, ok, d, def)
+		}
 	case "allow":
 		for _, via := range []string{"yaml", "set"} {
 			if via == "yaml" && !tableValid(rp.Table) {
@@ -287,7 +399,7 @@ func main() {
 	if err := enc.Add(encoder.DecodeDetail{Hint: base.MPublickeyHint, Instance: &base.MPublickey{}}); err != nil {
 		panic(err)
 	}
-	res := vh.NewResult("every (table, user, scope, required) answered by the real launch.ACL.Allow, tables installed through YAMLACL.Import and through ACL.setUser; exhaustive: cells u.s1,u._default,_default.s1,_default._default each in {absent,x,o,oo,s} x (u.s2, _default.s2 present or not) x 4 users (super,u,absent user,_default) x 4 scopes x 8 required; random larger tables; all 256 perm values through MarshalText/UnmarshalText; non-trivial = non-super user, required an allow permission and some entry of the chain defined")
+	res := vh.NewResult("every (table, user, scope, required) answered by the real launch.ACL.Allow, tables installed through YAMLACL.Import and through ACL.setUser; exhaustive: cells u.s1,u._default,_default.s1,_default._default each in {absent,x,o,oo,s} x (u.s2, _default.s2 present or not) x 4 users (super,u,absent user,_default) x 4 scopes x 8 required; random larger tables; histories of 2-4 successive installs on ONE ACL (renamed/moved scopes with equal cardinality, moved users, changed perms; through Import and through setUser) judged after every install against the last installed table; all 256 perm values through MarshalText/UnmarshalText; non-trivial = non-super user, required an allow permission and some entry of the chain defined")
 	if o.Replay != "" {
 		var rp replay
 		if err := vh.ReadReplay(o.Replay, &rp); err == nil && rp.Kind != "" {
@@ -442,6 +554,122 @@ func main() {
 			res.Sample(map[string]any{"table": t})
 		}
 	}
+
+	// ---------------------------------------------------------------- install histories on ONE ACL
+	// the decisions must follow the LAST installed table: renamed / moved scopes with equal cardinality, moved users,
+	// changed perms, through Import and through setUser; the grid is asked after every install.
+	hgrid := &gridSpec{}
+	var hq []query
+	{
+		hreqs := []uint8{1, 2, 3, 79}
+		var a, b, c []string
+		for _, x := range users {
+			a = append(a, qq(alias(x)))
+		}
+		for _, x := range scopes {
+			b = append(b, qq(x))
+		}
+		for _, x := range hreqs {
+			c = append(c, fmt.Sprint(x))
+		}
+		hgrid.us, hgrid.ss, hgrid.rs = "["+strings.Join(a, ";")+"]", "["+strings.Join(b, ";")+"]", "["+strings.Join(c, ";")+"]"
+		for _, qu := range users {
+			for _, qs := range scopes {
+				for _, qr := range hreqs {
+					hq = append(hq, query{qu, qs, qr})
+				}
+			}
+		}
+	}
+	cp := func(t table) table {
+		n := table{}
+		for k, m := range t {
+			n[k] = map[string]uint8{}
+			for s, p := range m {
+				n[k][s] = p
+			}
+		}
+		return n
+	}
+	nhist := 0
+	// systematic: one scope of one user renamed (same perm, same cardinality), then renamed again
+	for _, who := range []string{u, defUser} {
+		for _, p1 := range []uint8{1, 2, 3, 79} {
+			for _, other := range []int{-1, 1, 2, 79} { // the other party's entry for s1 and s2
+				for _, keep := range []int{-1, 2} { // an unchanged second entry (_default) of the renamed user
+					t1 := table{who: {"s1": p1}}
+					party := u
+					if who == u {
+						party = defUser
+					}
+					if other >= 0 {
+						t1[party] = map[string]uint8{"s1": uint8(other), "s2": uint8(other)}
+					}
+					if keep >= 0 {
+						t1[who][defScope] = uint8(keep)
+					}
+					t2 := cp(t1)
+					delete(t2[who], "s1")
+					t2[who]["s2"] = p1
+					t3 := cp(t2)
+					delete(t3[who], "s2")
+					t3[who]["zz"] = p1
+					runHistory(res, cases, su, []table{t1, t2, t3, t1}, hq, hgrid, nameOf, nhist%o.Pick(2, 1) == 0)
+					nhist++
+				}
+			}
+		}
+	}
+	// a user's whole table moved to another user (same number of users)
+	for _, p1 := range []uint8{1, 3} {
+		t1 := table{u: {"s1": p1, defScope: 2}, defUser: {"s1": 2}}
+		t2 := table{w: {"s1": p1, defScope: 2}, defUser: {"s1": 2}}
+		runHistory(res, cases, su, []table{t1, t2, t1}, hq, hgrid, nameOf, true)
+		nhist++
+	}
+	// random: each table is a small mutation of the previous one
+	hs := []string{"s1", "s2", defScope}
+	for i := 0; i < o.Pick(150, 3000); i++ {
+		t := table{}
+		for _, us := range []string{u, w, defUser} {
+			if r.Chance(2, 3) {
+				t[us] = map[string]uint8{hs[r.Intn(3)]: []uint8{1, 2, 3, 79}[r.Intn(4)]}
+				if r.Bool() {
+					t[us][hs[r.Intn(3)]] = []uint8{1, 2, 3, 79}[r.Intn(4)]
+				}
+			}
+		}
+		if len(t) == 0 {
+			t[defUser] = map[string]uint8{defScope: 1}
+		}
+		hist := []table{t}
+		for k := 0; k < r.Range(1, 3); k++ {
+			n := cp(hist[len(hist)-1])
+			us := vh.SortedKeys(n)[r.Intn(len(n))]
+			scs := vh.SortedKeys(n[us])
+			sc := scs[r.Intn(len(scs))]
+			switch r.Intn(5) {
+			case 0, 1: // rename a scope (equal cardinality when the target is free)
+				p := n[us][sc]
+				delete(n[us], sc)
+				n[us][append(hs, "zz")[r.Intn(4)]] = p
+			case 2: // change a perm
+				n[us][sc] = []uint8{1, 2, 3, 79}[r.Intn(4)]
+			case 3: // move the table to another user
+				to := []string{u, w, defUser}[r.Intn(3)]
+				if _, taken := n[to]; !taken {
+					n[to] = n[us]
+					delete(n, us)
+				}
+			default: // add an entry
+				n[us][hs[r.Intn(3)]] = []uint8{1, 2, 3, 79}[r.Intn(4)]
+			}
+			hist = append(hist, n)
+		}
+		runHistory(res, cases, su, hist, hq, hgrid, nameOf, true)
+		nhist++
+	}
+	res.Distribution["install_histories"] = nhist
 
 	// ---------------------------------------------------------------- permission text: all 256 values
 	for p := 0; p <= 255; p++ {
